@@ -21,11 +21,11 @@ theorem history_independent {T : Type} (compute : Int → T) (s : State T) (h : 
 
 set_option maxRecDepth 100000
 
-/-- NewLunarYear has exactly the modelled shape: Lock; decl; if miss {build…; store} else {use cache}; Unlock; return -/
+/-- NewLunarYear has exactly the modelled shape: Lock; defer Unlock; decl; if miss {build…; store} else {use cache}; return -/
 theorem newLunarYear_shape : (Gen.Facts.newLunarYearShape ==
-    ["expr lock.Lock()", "decl",
+    ["expr lock.Lock()", "defer lock.Unlock()", "decl",
      "if ((nil == CACHE_YEAR) || (CACHE_YEAR.year != lunarYear)) {assign year; assign year.year; assign year.months; assign offset; assign yearGanIndex; assign yearZhiIndex; if (yearGanIndex < 0) {assign yearGanIndex} else {}; if (yearZhiIndex < 0) {assign yearZhiIndex} else {}; assign year.ganIndex; assign year.zhiIndex; expr year.compute(); assign CACHE_YEAR} else {assign year}",
-     "expr lock.Unlock()", "return year"]) = true := by decide +kernel
+     "return year"]) = true := by decide +kernel
 
 /-- the cache and its lock are touched by NewLunarYear only -/
 theorem cache_private : Gen.Facts.cacheRefs.all (fun p => p.1 == "calendar.NewLunarYear") = true := by decide +kernel
